@@ -40,9 +40,13 @@ def check(run):
                               ('Q4', 11 if thorough else 9, ['undefined', 'next'])):
         st = run.explore(f'{dev}: every sequence of exactly {depth} operations from {kinds}', SPEC + ({'device': dev, 'depth': depth, 'kinds': kinds, 'exact_depth': True},), 1500)
         records.extend(st['records'])
-    for pn, chunk, depth in ((64, 64, 3), (32, 32, 4), (32, 1, 3)):
+    # process::<N> collects the responses of one message in a buffer of N bytes: every message used here answers with at most N bytes
+    # ('arity' is left out for N=32: -115,"Unexpected number of parameters" alone is 43 bytes; a response that does not fit is outside
+    # C04's and C09's claims -- see DESIGN.md section 9, observations)
+    small = ['undefined', 'custom', 'next', 'next-long', 'count', 'valid', 'next+count']
+    for pn, chunk, depth, kinds in ((64, 64, 3, None), (32, 32, 4, small), (32, 1, 3, small)):
         st = run.explore(f'Q2: sequences of 1..{depth} operations streamed through process::<{pn}>, {chunk} bytes per read (the responses of several messages per read exceed the buffer unless each is sent at once)',
-                         SPEC + ({'device': 'Q2', 'depth': depth, 'process': chunk, 'pn': pn},), 900)
+                         SPEC + ({'device': 'Q2', 'depth': depth, 'process': chunk, 'pn': pn, 'kinds': kinds},), 900)
         records.extend(st['records'])
     overflowed = 0
     for r in records:
